@@ -31,9 +31,25 @@
     * `C09_nameable_iff`: the hypothesis `Nameable` of the round-1 theorems, decided on the projection;
     * `C09_cex_new_namer_on_xattr_result`: the other namer (`names_of`) does NOT have this property —
       on `getattr(u, "cfg").pick(v, "name")` it answers `v.name` where the README says `u.cfg.pick()`.
+
+  Round 4 — the records of a function do not depend on what the OTHER functions of its file do (all
+  functions of a file are analysed against one shared root context object):
+    * `C09_function_leaves_shared_context`, `C09_records_independent_of_earlier_function`: the analysis
+      of any function hands the context back unchanged, so the next function is analysed exactly as in
+      the initial context (a `del` / assignment of a local named like a module-level class included);
+    * `C09_file_records_independent_of_other_functions`: at the file stage, the FunctionIr (hence the
+      call records) stored for a definition is the same with any function definitions before / after it;
+    * `C09_del_keeps_ancestor_binding`: the reason — `Context.remove` never reaches an ancestor scope;
+    * `C09_tieA_scope_ops` (Tie A): the REAL `Context.add` / `remove` / `add_identifiers_to_context` /
+      `remove_identifiers_from_context`, evaluated on a child -> root chain for 469 operation sequences
+      (RattrModel/Generated/C09.lean), do what the model's operations do;
+    * `C09_test_shadowing_local_deleted`: the seeded shape (`C = a.v; del C` in one function, three
+      constructions of `C` in the next) evaluated in the model.
 -/
 import RattrProofs.Lemmas.VisitCtx
 import RattrProofs.Lemmas.C09Spell
+import RattrProofs.Lemmas.FileOrder
+import RattrModel.Generated.C09
 
 namespace Rattr.C09
 open Rattr Rattr.FnA Rattr.Strs
@@ -603,5 +619,136 @@ theorem C09_test_three_sites :
     [ (["@C".toList, "a".toList], []),
       (["x".toList, "b".toList], []),
       (["@ReturnValue".toList, "a".toList], [("k".toList, "b".toList)]) ] := by decide +kernel
+
+/-! ### Round 4: the records of a function do not depend on the other functions of the file -/
+
+/-- `FunctionAnalyser(fn, context).analyse()` hands the shared context back unchanged — whatever the
+body binds or unbinds, also names that are module-level classes / functions. -/
+theorem C09_function_leaves_shared_context (env : Env) (mn : Str) (root : Context) (ps : Params)
+    (body : List Node) (s' : St) (h : analyse env mn root ps body = .ok s') : s'.ctx = root :=
+  analyse_ctx env mn root ps body s' h
+
+/-- A function analysed AFTER another one (in the context the first analysis leaves behind) is
+analysed exactly as in the initial context: same outcome, same call records, same diagnostics. -/
+theorem C09_records_independent_of_earlier_function (env : Env) (mn : Str) (root : Context)
+    (ps₁ : Params) (body₁ : List Node) (s₁ : St) (ps₂ : Params) (body₂ : List Node)
+    (h₁ : analyse env mn root ps₁ body₁ = .ok s₁) :
+    analyse env mn s₁.ctx ps₂ body₂ = analyse env mn root ps₂ body₂ := by
+  rw [analyse_ctx env mn root ps₁ body₁ s₁ h₁]
+
+/-- … and so every call record of the later function is a call-site record (`C09_full_holds`) made
+in the INITIAL context. -/
+theorem C09_later_function_records_are_site_records (env : Env) (mn : Str) (root : Context)
+    (ps₁ : Params) (body₁ : List Node) (s₁ : St) (ps₂ : Params) (body₂ : List Node) (s₂ : St)
+    (h₁ : analyse env mn root ps₁ body₁ = .ok s₁) (h₂ : analyse env mn s₁.ctx ps₂ body₂ = .ok s₂) :
+    analyse env mn root ps₂ body₂ = .ok s₂ ∧ ∀ c ∈ s₂.calls, IsSiteRecord c := by
+  rw [C09_records_independent_of_earlier_function env mn root ps₁ body₁ s₁ ps₂ body₂ h₁] at h₂
+  exact ⟨h₂, C09_full_holds env mn root ps₂ body₂ s₂ h₂⟩
+
+/-- FILE stage: the FunctionIr stored under `key` by the walk over `pre ++ t :: post` (function
+definitions) is the one the walk over `[t]` alone stores, when no other definition stores that key. -/
+theorem C09_file_records_independent_of_other_functions (env : Env) (mn : Str) (f : Facts)
+    (pre post : List Top) (t : Top)
+    (hall : ∀ x ∈ pre ++ t :: post, FileA.isFuncDef x = true) (s a b : FileA.FState)
+    (hU : FileA.Unambiguous env mn f s.ctx (pre ++ t :: post))
+    (h₁ : FileA.visitTops env mn f [t] s = .ok a)
+    (h₂ : FileA.visitTops env mn f (pre ++ t :: post) s = .ok b) (key : Sym)
+    (hkey : ∀ x ∈ pre ++ t :: post, x ≠ t → ∀ ir, ¬ FileA.Stores env mn f s.ctx x key ir) :
+    Dict.get? a.ir key = Dict.get? b.ir key := by
+  apply FileA.funcDefs_unrelated env mn f [t] (pre ++ t :: post) _ hall s a b hU h₁ h₂ key
+  · intro x hx hnx ir
+    exact hkey x hx (by simpa using hnx) ir
+  · intro x hx
+    have : x = t := by simpa using hx
+    subst this
+    simp
+
+/-- the reason: `Context.remove` pops from the innermost scope only — a name that scope does not
+declare resolves afterwards exactly as before, and so does every other name. -/
+theorem C09_del_keeps_ancestor_binding (sc : Scope) (r : Context) (x y : Str)
+    (h : Dict.get? sc x = none) : Context.get? (Context.remove (sc :: r) x) y = Context.get? (sc :: r) y := by
+  by_cases e : x = y
+  · subst e
+    rw [Context.get?_remove_ancestor sc r x h, Context.get?_cons_none h]
+  · exact Context.get?_remove_other (sc :: r) x y e
+
+/-! #### Tie A: the real scope operations (RattrModel/Generated/C09.lean) -/
+
+namespace ScopeOps
+
+def fnF : Sym :=
+  { kind := .func, name := "f".toList, callable := true, iface := some ⟨[], ["p".toList], none, [], none⟩ }
+
+/-- child -> root; the root declares the class `C` and the function `f` -/
+def chain0 : Context := [[], [("C".toList, clsC), ("f".toList, fnF)]]
+
+def viaAdd (c : Context) (t : Node) : Context :=
+  match addIdentifiers { ctx := c } t with
+  | .ok s => s.ctx
+  | _ => c
+
+def viaDel (c : Context) (t : Node) : Context :=
+  match removeIdentifiers { ctx := c } t with
+  | .ok s => s.ctx
+  | _ => c
+
+def applyOp (c : Context) (op : String × String) : Context :=
+  let x := op.2.toList
+  if op.1 = "add" then Context.add c (Context.nameSym x)
+  else if op.1 = "addArg" then Context.add c (Context.nameSym x) true
+  else if op.1 = "remove" then Context.remove c x
+  else if op.1 = "addIds" then viaAdd c (.name x .store)
+  else if op.1 = "delIds" then viaDel c (.name x .del)
+  else if op.1 = "addIdsPair" then viaAdd c (.seq "Tuple".toList [.name x .store, .name "zz".toList .store] .store)
+  else if op.1 = "delIdsPair" then viaDel c (.seq "Tuple".toList [.name x .del, .name "zz".toList .del] .del)
+  else if op.1 = "addIdsStar" then
+    viaAdd c (.seq "List".toList [.name "first".toList .store, .starred (.name x .store) .store] .store)
+  else if op.1 = "delIdsAttr" then viaDel c (.attr (.name x .load) "attr".toList .del)
+  else if op.1 = "delIdsSub" then viaDel c (.sub (.name x .load) .const .del)
+  else c
+
+def kindName : Option Sym → String
+  | none => "none"
+  | some s => match s.kind with
+    | .name => "Name" | .builtin => "Builtin" | .import_ => "Import" | .func => "Func" | .cls => "Class"
+
+def scopeKeys (sc : Scope) : List String := (Dict.keys sc).map String.ofList
+
+/-- (names the child declares, names the root declares, what `C` resolves to from the child) -/
+def evalRow (ops : List (String × String)) : List String × List String × String :=
+  let c := ops.foldl applyOp chain0
+  (scopeKeys (c.headD []), scopeKeys ((c.drop 1).headD []), kindName (Context.get? c "C".toList))
+
+end ScopeOps
+
+/-- Tie A: on every recorded operation sequence the real `Context` (child -> root) ends with the
+declared names and the resolution of `C` that the model's operations produce. -/
+theorem C09_tieA_scope_ops :
+    Generated.C09.scopeOps.all (fun r => decide (ScopeOps.evalRow r.1 = r.2)) = true := by decide +kernel
+
+/-- the table is not trivial: it holds the seeded shape (bind `C`, `del C`), which leaves the root alone -/
+example : ([("add", "C"), ("delIds", "C")], ([] : List String), ["C", "f"], "Class") ∈ Generated.C09.scopeOps := by
+  decide +kernel
+
+/-! #### test (labelled as such): the seeded shape in the model -/
+
+/-- `def sh(a, b): C = a.v; del C` then `def u(a, b): C(a); x = C(b); return C(a, k=b)` analysed in
+the context the first analysis leaves behind: the three records carry the instance. -/
+theorem C09_test_shadowing_local_deleted :
+    (match analyse env0 [] [[("C".toList, clsC)]] ⟨[], ["a".toList, "b".toList], none, [], none⟩
+        [ .assign [.name "C".toList .store] (.attr (nm "a") "v".toList .load),
+          .delete [.name "C".toList .del] ] with
+     | .ok s₁ =>
+       (match analyse env0 [] s₁.ctx ⟨[], ["a".toList, "b".toList], none, [], none⟩
+          [ .call (nm "C") [nm "a"] [] [],
+            .assign [.name "x".toList .store] (.call (nm "C") [nm "b"] [] []),
+            .ret [.call (nm "C") [nm "a"] [some "k".toList] [nm "b"]] ] with
+        | .ok s => (s₁.ctx, s.calls.map (fun c => (c.args, c.kwargs)))
+        | _ => ([], []))
+     | _ => ([], [])) =
+    ([[("C".toList, clsC)]],
+     [ (["@C".toList, "a".toList], []),
+       (["x".toList, "b".toList], []),
+       (["@ReturnValue".toList, "a".toList], [("k".toList, "b".toList)]) ]) := by decide +kernel
 
 end Rattr.C09
